@@ -277,3 +277,36 @@ CHECKS["C12"] = dict(
                "every abort point of generation is executed on the real updateTB.",
     level_note="Trusted: uniqueness of the solution of terminal labels + minimax equations (induction on distance); texel's MoveGen (C01).",
 )
+
+# ------------------------------------------------------------------------------------------ C13
+def c13_parts(tier, seed):
+    q = tier == "quick"
+    T = "c13_tbsearch"
+    if q:
+        return [
+            P("3men", T, "fast", ["--part", "3men", "--names", "KQvK,KvKR", "--clocks", "0", "--mrange", 1, "--polls", 3, "--stride", 2], require=["nontrivial", "not_completable_roots"], deadline_frac=0.9),
+            P("4men", T, "fast", ["--part", "4men", "--names", "KBNvK,KQvKR", "--clocks", "0", "--mrange", 1, "--polls", 3, "--stride", 499], require=["nontrivial"], deadline_frac=0.9),
+        ]
+    return [
+        P("3men", T, "fast", ["--part", "3men", "--clocks", "0,99", "--mrange", 2, "--polls", 6], require=["nontrivial", "not_completable_roots"], deadline_frac=0.95),
+        P("4men", T, "fast", ["--part", "4men", "--names", "KBNvK,KQvKR,KRvKN,KBBvK,KvKQR,KRvKB", "--clocks", "0,99", "--mrange", 2, "--polls", 6, "--stride", 61], require=["nontrivial"], deadline_frac=0.95),
+        P("3men-asan", T, "seq", ["--part", "3men", "--names", "KRvK", "--clocks", "0", "--mrange", 1, "--polls", 3], require=["nontrivial"], deadline_frac=0.95),
+    ]
+
+CHECKS["C13"] = dict(
+    parts=c13_parts,
+    rule="states = (root position, half-move clock) searches executed, each distinct by construction; transitions = PV lines reported; non-trivial = root is won or lost (a mate distance must be reported exactly)",
+    alphabet="roots: every legal placement with the white king in the a1-d1-d4 triangle of the material class (4-men classes thinned by a fixed stride), both sides to move; "
+             "clocks: 0 [,99] and every clock at which the 50-move margin 100 - hmc - plies-to-mate is in [-m, m]; search: iterativeDeepening(maxDepth=-1, maxNodes=-1) "
+             "on a 16 MB table (on-demand tablebase built by updateTB), Threads 1, counting stop handler",
+    oracle="exact DTM from a vector-storage table (C12-checked): completable win/loss => final score 'mate +-N' with N exact and, for wins, the move keeps a shortest mate; "
+           "draw => non-mate final score and the move does not lose; mate not completable before the 50-move limit (3-men classes) => final score is not a mate. "
+           "Completable: hmc + (2N-1) <= 100 for a win in N, hmc + 2N <= 100 for a loss in N. Final score = last line of the deepest completed iteration",
+    bound=dict(quick="KQvK, KvKR (every 2nd triangle placement), KBNvK and KQvKR every 499th placement; clocks 0 and margins -1..1", thorough="all 8 three-men classes, 6 four-men classes every 61st placement, clocks 0, 99, margins -2..2"),
+    assumptions=["bound (upper/lower) lines and lines of an interrupted iteration describe single root moves and are not judged",
+                 "for 4-men classes a zeroing capture may make a 'not completable' mate completable, so the 50-move clause is judged for 3-men classes only (counted as unverified otherwise)",
+                 "the reference table is exact (established by C12 on the same tree)"],
+    technique="bounded-exhaustive enumeration of root positions x clocks on the real search with on-demand tablebase, exact-DTM reference",
+    level_text="Every root of the stated universes is searched by the real engine code with its on-demand table and compared with exact distance to mate, including all clocks around the 50-move boundary.",
+    level_note="Trusted: the C12-validated table generator used as reference; Threads > 1 not covered here.",
+)
